@@ -476,6 +476,9 @@ pub struct Store {
     /// a flush parked on the level-0 stall (see Op::FlushStalled)
     pending: Option<PendingFlush>,
     pub n_stalled_flushes_completed: u64,
+    /// compaction steps after which the set of files at the oldest level differed (a GC ran, or
+    /// a file arrived there)
+    pub n_steps_rewriting_oldest_level: u64,
     pub model: Model,
     pub cursors: Vec<KeptCursor>,
     pub step: usize,
@@ -519,6 +522,7 @@ impl Store {
             bare,
             pending: None,
             n_stalled_flushes_completed: 0,
+            n_steps_rewriting_oldest_level: 0,
             model: Model::new(),
             cursors: vec![],
             step: 0,
@@ -726,10 +730,22 @@ impl Store {
 
     fn compact_step(&mut self) -> Result<bool, String> {
         let tree = self.tree();
+        let place = |t: &LsmTree| -> BTreeSet<(usize, [u8; 32])> {
+            t.verif_levels().iter().enumerate().flat_map(|(i, l)| l.iter().map(move |m| (i, m.setsum)).collect::<Vec<_>>()).collect()
+        };
+        let placed_before = place(tree);
         set_step_mode(StepMode::StepNoWait);
         let before = steps_completed();
         let r = vcore::catch(|| tree.compaction_thread());
         set_step_mode(StepMode::Off);
+        let placed_after = place(tree);
+        // the step wrote into the oldest level: files went away and whatever replaced them is at
+        // the oldest level (possibly nothing, possibly a byte-identical copy of an input there)
+        let gone = placed_before.difference(&placed_after).count();
+        let new_above = placed_after.difference(&placed_before).filter(|(l, _)| *l + 1 < lsmtk::NUM_LEVELS).count();
+        if gone > 0 && new_above == 0 {
+            self.n_steps_rewriting_oldest_level += 1;
+        }
         match r {
             Err(p) => Err(format!("panic in compaction: {p}")),
             Ok(Err(e)) => Err(format!("compaction failed: {e}")),
